@@ -104,6 +104,17 @@ def _run(V, work, tier):
     if counts["accept"] < 300 or counts["reject"] < 5000:
         raise MachineryError("timestamp classes are unbalanced: %r" % counts)
     # what the real formatter printed, read by the specification: same instant
+    # (text that does not even have the fixed layout - a year of five digits, a sign in front of the year - is no timestamp
+    # the parsers would take back: that is the round trip failing, and the specification is not asked to read it)
+    import re as _re
+    LAYOUT = _re.compile(r"^\d{4}-\d\d-\d\dT\d\d:\d\d:\d\d(\.\d{1,9})?(Z|[+-]\d\d:\d\d)$")
+    shaped = []
+    for i, which, t in reformatted:
+        if t and LAYOUT.match(t):
+            shaped.append((i, which, t))
+        else:
+            V.add(None, "format-rfc3339%s of the parsed timestamp %s prints %r, which is not a timestamp the parsers read back" % ("-nano" if which == "fmtn" else "", stamps[i]["text"], t), {"stamp": stamps[i]["text"], "formatted": t})
+    reformatted = shaped
     sample = reformatted if thorough else rnd.sample(reformatted, min(len(reformatted), 6000))
     text = "".join(json.dumps({"id": k, "a": list(stamps[i]["text"]), "b": list(t or "x")}) + "\n" for k, (i, which, t) in enumerate(sample))
     back = tlc_mode(work, V, "pairs", thorough, "Time pairs (formatter output read back): %d", files={"timepairs.ndjson": text})
